@@ -189,12 +189,16 @@ def _wrap_last(ctx, py):
     stmts = fn.body
     # locate the statement that wraps the angle columns and make sure nothing after it changes `difference`
     idx = None
+    var = None
     for i, st in enumerate(stmts):
-        if "to_180_range" in ast.unparse(st):
-            idx = i
+        for n in ast.walk(st):
+            if (isinstance(n, ast.Assign) and isinstance(n.value, ast.Call) and ast.unparse(n.value.func).endswith("to_180_range")
+                    and isinstance(n.targets[0], ast.Subscript) and ast.unparse(n.targets[0]) == ast.unparse(n.value.args[0])
+                    and isinstance(n.targets[0].value, ast.Name)):
+                idx, var = i, n.targets[0].value.id
     after = stmts[idx + 1:] if idx is not None else []
-    ok = idx is not None and all(isinstance(s_, ast.Return) and ast.unparse(s_.value) == "difference" for s_ in after) and len(after) == 1
-    wrapped = idx is not None and "difference[RPH_COLS] = util.to_180_range(difference[RPH_COLS])" in ast.unparse(stmts[idx])
+    ok = idx is not None and len(after) == 1 and isinstance(after[0], ast.Return) and ast.unparse(after[0].value) == var
+    wrapped = idx is not None
     ctx.ob("C18.diff.wrap_is_last", "f", ok and wrapped, "ast", 0.0,
            "the angle reduction is the last operation applied to the angle columns and its result is returned unchanged (so the range (-180,180] holds after the sign)",
            cex=None if ok and wrapped else dict(after_wrap=[ast.unparse(s_) for s_ in after]), native=None if ok and wrapped else _range_native(py))
